@@ -105,9 +105,13 @@ func runC46(c *core.Ctx) {
 	// write before mark, nil only after hit or write
 	hit := core.PruneWhen(func(cd core.Cond) bool { return cd.V == has[0].(ssa.Value) && cd.Taken })
 	mustPassChecked(c, rec, "C46/metadata-written", "historyRepository.recordMiniblock/put", nil,
-		func(in ssa.Instruction, cc *ssa.CallCommon) bool { return core.CallDesc(cc).Name == "putMiniblockMetadata" },
+		func(in ssa.Instruction, cc *ssa.CallCommon) bool {
+			return core.CallDesc(cc).Name == "putMiniblockMetadata"
+		},
 		core.NilReturn, hit, "without a cache hit, nil is returned only after a checked putMiniblockMetadata")
-	q := core.PathQ{Fn: rec, Via: func(in ssa.Instruction) bool { return core.IsCall(in, pkg, "historyRepository", "putMiniblockMetadata") },
+	q := core.PathQ{Fn: rec, Via: func(in ssa.Instruction) bool {
+		return core.IsCall(in, pkg, "historyRepository", "putMiniblockMetadata")
+	},
 		Target: func(in ssa.Instruction, _ *ssa.BasicBlock) bool { return in == mark[0] }}
 	esc, _ := q.Escape()
 	c.Check(esc == nil, "C46/metadata-written", "historyRepository.recordMiniblock/mark-after-put", mark[0].Pos(), "the entry is marked as recorded only after the metadata was written", "the entry can be marked as recorded before/without the metadata write")
